@@ -104,3 +104,56 @@ def sortedBy {α} (lt : α → α → Bool) : List α → Bool
   | x :: rest => rest.all (fun y => !lt y x) && sortedBy lt rest
 
 end ASV.Serial
+
+namespace ASV.Serial
+open ASV
+
+/-! ### executable mirror of the hypotheses of the record theorem (`Rec.Scope` in Proofs/SerialRecord) -/
+
+def areaTypes : List String := ["protocluster", "subregion", "cand_cluster", "region"]
+
+def nodupKeys (q : Quals) : Bool := decide (q.map (·.1)).Nodup
+
+def featWFb (f : Feat) : Bool :=
+  nodupKeys f.quals && (Q.get? f.quals "codon_start").isNone && Q.get? f.quals "note" != some [] &&
+  (Q.get? f.quals "tool" != some ["antismash"] || f.byAS) && f.loc.parts.all (fun p => decide (p.lo ≤ p.hi))
+
+def insideb (r : Rec) (l : Loc) : Bool :=
+  decide (0 ≤ l.start) && decide (l.end ≤ r.len) && (decide (l.parts.length ≤ 1) || r.circular)
+
+def subWFb (r : Rec) (s : Sub) : Bool :=
+  featWFb s.feat && s.feat.byAS && s.feat.codon.isNone && s.feat.type == "subregion" &&
+  ["aStool", "label", "anchor", "subregion_number", "contig_edge"].all (fun k => (Q.get? s.feat.quals k).isNone) &&
+  !isExternal s.tool && s.side.isNone && insideb r s.feat.loc
+
+def protoWFb (r : Rec) (p : Proto) : Bool :=
+  featWFb p.feat && p.feat.byAS && p.feat.codon.isNone && p.feat.type == "protocluster" && !p.core.parts.isEmpty &&
+  ["category", "neighbourhood", "cutoff", "product", "aStool", "detection_rule", "core_location", "protocluster_number",
+   "contig_edge"].all (fun k => (Q.get? p.feat.quals k).isNone) &&
+  !isExternal p.tool && p.side.isNone && insideb r p.feat.loc && (decide (p.core.parts.length ≤ 1) || r.circular)
+
+def candWFb (r : Rec) (c : Cand) : Bool :=
+  c.feat == ⟨c.feat.loc, "cand_cluster", [], [], true, none⟩ && kinds.contains c.kind && !c.children.isEmpty &&
+  c.children.all (· < r.protos.length) && c.wrap == (if r.circular then some r.len else none) &&
+  (match connect (c.children.filterMap fun i => (r.protos[i]?).map (·.feat.loc)) c.wrap with
+    | .ok l => l == c.feat.loc | .error _ => false) && insideb r c.feat.loc
+
+def regWFb (r : Rec) (g : Reg) : Bool :=
+  g.feat == ⟨g.feat.loc, "region", [], [], true, none⟩ && (!g.cands.isEmpty || !g.subs.isEmpty) &&
+  g.cands.all (· < r.cands.length) && g.subs.all (· < r.subs.length) &&
+  (match regionLoc ((g.subs.filterMap fun i => (r.subs[i]?).map (·.feat.loc)) ++
+                    (g.cands.filterMap fun i => (r.cands[i]?).map (·.feat.loc))) with
+    | .ok l => l == g.feat.loc | .error _ => false) && insideb r g.feat.loc
+
+/-- everything of `Rec.Scope` except the strict-weak-order condition (checked separately on the
+    comparison matrix by the driver) -/
+def scopeButOrder (r : Rec) : Bool :=
+  (r.others ++ r.cdss).all (fun f => !areaTypes.contains f.type) &&
+  r.subs.all (subWFb r) && r.protos.all (protoWFb r) && r.cands.all (candWFb r) && r.regs.all (regWFb r) &&
+  sortedBy (fun (a b : Sub) => areaLt a.feat.loc b.feat.loc) r.subs &&
+  sortedBy (fun (a b : Proto) => areaLt a.feat.loc b.feat.loc) r.protos &&
+  sortedBy (fun (a b : Cand) => areaLt a.feat.loc b.feat.loc) r.cands &&
+  sortedBy (fun (a b : Reg) => areaLt a.feat.loc b.feat.loc) r.regs &&
+  sortedBy (fun (a b : Reg) => locationsOverlap a.feat.loc b.feat.loc) r.regs
+
+end ASV.Serial
